@@ -515,9 +515,11 @@ func (w *c01World) enumerate() {
 // (1) TALKREQ payloads
 func (w *c01World) talkRequests(net, store string) {
 	reqs := w.c.requestSeeds(net)
-	for sender := 0; sender < 3; sender++ {
+	for sender := 0; sender < 4; sender++ {
 		proto := c01Case{Net: net, Store: store, Entry: "talkreq", Sender: sender}
-		c01Shorts(c01ShortLen, func(b []byte) { c := proto; c.In = b; w.do(&c, nil) })
+		if sender < 3 { // the sender without an endpoint: the request seeds and their mutants only
+			c01Shorts(c01ShortLen, func(b []byte) { c := proto; c.In = b; w.do(&c, nil) })
+		}
 		for _, s := range reqs {
 			proto.Seed = s.Name
 			k := 0
